@@ -16,11 +16,34 @@ let bs x = if x then "#t" else "#f"
 let len l = List.length l
 let pmod a m = ((a mod m) + m) mod m
 
-type value = L of z list | P of (z * z) list
+type value = L of z list | P of (z * z) list | T of tree
 type res = V of value | Q of string
-let dump = function L l -> dump_list l | P l -> dump_alist l
-let gl = function L l -> l | P _ -> failwith "expected a list version"
-let gp = function P l -> l | L _ -> failwith "expected an alist version"
+(* the model's tree of an iset, printed like harness/c18_hist.scm iset-shape *)
+let rec shape = function
+  | Nil -> "_"
+  | Node (s, e, bits, l, r) ->
+    "(" ^ s_int s ^ " " ^ s_int e ^ " " ^ (match bits with Some b -> hex_of_z b | None -> "#f") ^ " " ^ shape l ^ " " ^ shape r ^ ")"
+let dump = function L l -> dump_list l | P l -> dump_alist l | T t -> shape t ^ "/" ^ dump_list (to_list t)
+let gl = function L l -> l | _ -> failwith "expected a list version"
+let gp = function P l -> l | _ -> failwith "expected an alist version"
+let gt = function T t -> t | _ -> failwith "expected a tree version"
+
+(* (chibi iset) inside the model (coq/C18/ISet.v): the versions are the model's trees *)
+let isett_step op (a : int array) (vs : value array) : res =
+  let v k = gt vs.(a.(k)) and x k = zi a.(k) in
+  let vt t = V (T t) in
+  match op with
+  | "adjoin" | "adjoinx" -> vt (adjoin1 (v 0) (x 1))
+  | "adjoin2" -> vt (adjoin_list (v 0) [x 1; x 2])
+  | "delete" | "deletex" -> vt (delete1 (v 0) (x 1))
+  | "union" | "unionx" -> vt (union2 (v 0) (v 1))
+  | "copy" -> vt (v 0)
+  | "oflist" -> vt (adjoin_list make_iset0 [x 0; x 1; x 2])
+  | "has" -> Q (bs (contains (v 0) (x 1)))
+  | "size" -> Q (s_int (iset_size (v 0)))
+  | "sum" -> Q (s_int (zsum (to_list (v 0))))
+  | "empty" -> Q (bs (is_empty (v 0)))
+  | _ -> failwith ("unknown isett op " ^ op)
 
 let set_step op (a : int array) (vs : value array) : res =
   let v k = gl vs.(a.(k)) and x k = zi a.(k) in
@@ -168,12 +191,13 @@ let parse_op tok =
 
 let run_hist fam toks =
   let prog = List.map parse_op toks in
-  let empty = match fam with "bag" | "map" | "hmap" -> P [] | _ -> L [] in
+  let empty = match fam with "bag" | "map" | "hmap" -> P [] | "isett" -> T make_iset0 | _ -> L [] in
   let vs = Array.make (List.length prog + 1) empty in
   let n = ref 1 in
   let buf = Buffer.create 1024 in
   let step = match fam with
     | "set" | "iset" -> set_step
+    | "isett" -> isett_step
     | "bag" -> bag_step
     | "map" | "hmap" -> map_step
     | "ra" | "deque" | "l1" | "v133" -> seq_step fam
